@@ -19,7 +19,11 @@ fn enc(o: MemOutcome) -> Value {
         MemOutcome::Done => json!({"k": "done"}),
         MemOutcome::Index(i) => json!({"k": "index", "v": i}),
         MemOutcome::Bytes(b) => json!({"k": "bytes", "v": b}),
-        MemOutcome::Panic(m) => json!({"k": "panic", "msg": m}),
+        MemOutcome::Panic(m) => {
+            // diagnostics only: one short line
+            let m: String = m.replace('\n', " ").chars().take(70).collect();
+            json!({"k": "panic", "msg": m})
+        }
     }
 }
 
